@@ -97,6 +97,42 @@ def runOps (keepOnTimeout resendAfterTimeout : Bool) : PState → List Op → Li
     let rest := runOps keepOnTimeout resendAfterTimeout r.2 ops
     (r.1 :: rest.1, rest.2)
 
+/-! ## concurrent requests through one client
+
+Several goroutines forward through the same `Client`. A request takes a connection
+out of the pool (`begin`: the command is written, the leader will execute it) and
+holds it exclusively until it has read its answer or given up (`finish`); other
+requests begin and finish in between, in any order. One attempt per request
+(`retries = 0`, the code after the `fix:` commit). -/
+
+inductive CEv where
+  | begin (op : Op)
+  | finish (tag : Nat)
+deriving DecidableEq, Repr
+
+structure CState where
+  pool     : List (List Nat) := []
+  inflight : List (Op × List Nat) := []      -- request, the connection it holds
+  executed : List Nat := []
+  results  : List (Nat × Res) := []          -- (request tag, what its caller got)
+deriving DecidableEq, Repr
+
+def cstep (keepOnTimeout : Bool) (st : CState) : CEv → CState
+  | .begin op =>
+    let cr := takeConn false st.pool
+    { st with pool := cr.2, inflight := st.inflight ++ [(op, cr.1)], executed := st.executed ++ [op.tag] }
+  | .finish tag =>
+    match st.inflight.find? (fun x => x.1.tag == tag) with
+    | none => st
+    | some (op, c) =>
+      let a := attempt keepOnTimeout c op
+      { st with pool := putBack st.pool a.2,
+                inflight := st.inflight.filter (fun x => !(x.1.tag == tag)),
+                results := st.results ++ [(tag, a.1)] }
+
+def crun (keepOnTimeout : Bool) (st : CState) (evs : List CEv) : CState :=
+  evs.foldl (cstep keepOnTimeout) st
+
 /-! ## line protocol
 `reset` → `ok`;  `op <tag> <slow 0|1> <retries>` / `hwm <tag> <slow 0|1> 0` → `ok:<tag>` | `timeout`   (the code's policy)
 `executed` → the leader-side database execution log `t,t,…` of the non-broadcast requests (`-` when empty)
